@@ -4,6 +4,8 @@ def power_law(alpha: float) -> callable:
     :param alpha: power law exponent
     :returns p: callable
     """
+    # pow(k, -alpha) with an int-typed exponent raises for numpy integer degrees
+    alpha = float(alpha)
 
     def zeta(s: float) -> float:
         tol = +1e-06
